@@ -168,6 +168,7 @@ Proof.
     - rewrite app_nil_r. apply Permutation_refl.
     - eapply Permutation_trans; [|apply IH].
       eapply Permutation_trans; [apply Permutation_sym, Permutation_middle|].
+      change (e :: acc ++ l) with ((e :: acc) ++ l).
       apply Permutation_app_tail. apply insert_link_perm. }
   apply (G []).
 Qed.
